@@ -12,6 +12,7 @@ import (
 	"fmt"
 	"io"
 	"net"
+	"runtime"
 	"sort"
 	"sync"
 	"sync/atomic"
@@ -28,11 +29,12 @@ import (
 
 // memConn is an in-memory net.PacketConn.
 type memConn struct {
-	in     chan []byte
-	mu     sync.Mutex
-	out    [][]byte
-	closed chan struct{}
-	once   sync.Once
+	onWrite func() // called at the start of every WriteTo (before the frame counts as sent)
+	in      chan []byte
+	mu      sync.Mutex
+	out     [][]byte
+	closed  chan struct{}
+	once    sync.Once
 }
 
 type memAddr struct{}
@@ -51,6 +53,9 @@ func (c *memConn) ReadFrom(p []byte) (int, net.Addr, error) {
 	}
 }
 func (c *memConn) WriteTo(p []byte, _ net.Addr) (int, error) {
+	if c.onWrite != nil {
+		c.onWrite()
+	}
 	c.mu.Lock()
 	c.out = append(c.out, append([]byte(nil), p...))
 	c.mu.Unlock()
@@ -70,6 +75,9 @@ func (c *memConn) SetReadDeadline(time.Time) error  { return nil }
 func (c *memConn) SetWriteDeadline(time.Time) error { return nil }
 
 var c13Ifaces = []string{"ifA", "ifB", "ifC"}
+
+// index 0 is unused (0 = ordinary request); the rest are opcodes of the ARP family that are not requests
+var c13Opcodes = []arp.Operation{1, 3, 4, 8, 9, 0, 65535, 256}
 var c13IPs = []string{"10.0.0.1", "10.0.0.2", "10.0.0.3", "fc00::1"}
 var c13OurMAC = net.HardwareAddr{0x02, 0, 0, 0, 0, 0x01}
 var c13PeerMAC = net.HardwareAddr{0x02, 0, 0, 0, 0, 0xaa}
@@ -104,8 +112,9 @@ type c13Op struct {
 	All    bool     `json:"all,omitempty"`
 	Ifs    []string `json:"ifs,omitempty"`
 	If     int      `json:"if,omitempty"`
-	Reply  bool     `json:"reply,omitempty"` // packet is an ARP reply instead of a request
-	Dst    int      `json:"dst,omitempty"`   // 0 own MAC, 1 broadcast, 2 other unicast MAC, 3..5 multicast MACs that are not the broadcast address
+	Reply  bool     `json:"reply,omitempty"`  // packet is an ARP reply instead of a request
+	Opcode int      `json:"opcode,omitempty"` // packet: index into c13Opcodes when neither 0 (request) nor Reply: other ARP-family opcodes (RARP, InARP, 0, 65535)
+	Dst    int      `json:"dst,omitempty"`    // 0 own MAC, 1 broadcast, 2 other unicast MAC, 3..5 multicast MACs that are not the broadcast address
 	Target int      `json:"target,omitempty"`
 }
 
@@ -139,6 +148,9 @@ func genC13(rt *rapid.T) c13Case {
 			op.Kind = "packet"
 			op.If = rapid.IntRange(0, len(c13Ifaces)-1).Draw(rt, "if")
 			op.Reply = rapid.IntRange(0, 4).Draw(rt, "reply") == 0
+			if !op.Reply && rapid.IntRange(0, 5).Draw(rt, "oddOpcode") == 0 {
+				op.Opcode = rapid.IntRange(1, len(c13Opcodes)-1).Draw(rt, "opcode")
+			}
 			op.Dst = rapid.SampledFrom([]int{0, 1, 1, 2, 3, 4, 5}).Draw(rt, "dst")
 			op.Target = rapid.IntRange(0, 2).Draw(rt, "target")
 		}
@@ -262,6 +274,9 @@ func runC13(c c13Case, tr *vw.Trace) *vw.Violation {
 			aop := arp.OperationRequest
 			if op.Reply {
 				aop = arp.OperationReply
+			} else if op.Opcode > 0 {
+				aop = c13Opcodes[op.Opcode%len(c13Opcodes)]
+				tr.Class("packet-with-other-arp-opcode")
 			}
 			pc := w.conns[name]
 			pc.take()
@@ -269,7 +284,7 @@ func runC13(c c13Case, tr *vw.Trace) *vw.Violation {
 			reason := w.resp[name].processRequest()
 			frames := pc.take()
 			want := false
-			if !op.Reply && op.Dst <= 1 {
+			if aop == arp.OperationRequest && op.Dst <= 1 {
 				for _, advs := range model {
 					for _, a := range advs {
 						if a.ip == target && a.covers(name) {
@@ -321,7 +336,7 @@ func runC13(c c13Case, tr *vw.Trace) *vw.Violation {
 
 func TestVerifC13Histories(t *testing.T) {
 	vw.Run(t, vw.Options{Property: "C13", Engine: "histories",
-		Rule: "1..40 ops over 4 services, 4 addresses (3 v4, 1 v6), 3 interfaces: announce (all interfaces or a subset), re-announce with another interface set, withdraw, ARP packet in (request/reply x destination own MAC/broadcast/other MAC x target x interface), replay of the queued unsolicited announcements through the real gratuitous(); non-trivial = some address was held by >=2 services and a withdraw happened",
+		Rule:        "1..40 ops over 4 services, 4 addresses (3 v4, 1 v6), 3 interfaces: announce (all interfaces or a subset), re-announce with another interface set, withdraw, ARP packet in (request/reply x destination own MAC/broadcast/other MAC x target x interface), replay of the queued unsolicited announcements through the real gratuitous(); non-trivial = some address was held by >=2 services and a withdraw happened",
 		Assumptions: []string{"only the ARP packet path is reached: ndp.Conn needs a raw ICMPv6 socket and has no seam for an in-memory connection (the NDP responder shares shouldAnnounce and the reference counting, which are covered)"}},
 		genC13, runC13)
 }
@@ -329,11 +344,11 @@ func TestVerifC13Histories(t *testing.T) {
 // ---- concurrent engine (built with -race) ----------------------------------------------
 
 type c13ConcCase struct {
-	Toggles   int      `json:"toggles"`
-	Requests  int      `json:"requests"`
-	Requester int      `json:"requesters"`
+	Toggles   int        `json:"toggles"`
+	Requests  int        `json:"requests"`
+	Requester int        `json:"requesters"`
 	Scopes    [][]string `json:"scopes"` // interface sets service B cycles through ([] = all interfaces)
-	Procs     int      `json:"gomaxprocs"`
+	Procs     int        `json:"gomaxprocs"`
 }
 
 func genC13Conc(rt *rapid.T) c13ConcCase {
@@ -446,9 +461,127 @@ func runC13Conc(c c13ConcCase, tr *vw.Trace) *vw.Violation {
 
 func TestVerifC13Concurrent(t *testing.T) {
 	vw.Run(t, vw.Options{Property: "C13", Engine: "concurrent",
-		Rule: "1..4 requester goroutines send 20..200 ARP requests each for the address X held by a stable service on ifA (and for a never announced Y) into the real responder loop while an updater goroutine announces / re-scopes / withdraws a second service on X and replays the unsolicited-announcement queue; every request for X must be answered, none for Y; run under the race detector; every run counts as non-trivial",
+		Rule:        "1..4 requester goroutines send 20..200 ARP requests each for the address X held by a stable service on ifA (and for a never announced Y) into the real responder loop while an updater goroutine announces / re-scopes / withdraws a second service on X and replays the unsolicited-announcement queue; every request for X must be answered, none for Y; run under the race detector; every run counts as non-trivial",
 		Assumptions: []string{"interleavings are produced by the Go scheduler (GOMAXPROCS as in the process), not enumerated; the race detector generalises each run to executions with the same happens-before graph"}},
 		genC13Conc, runC13Conc)
+}
+
+// ---- withdrawal placed inside an unsolicited announcement ---------------------------------
+//
+// The periodic loop calls gratuitous() for an address; the harness owns the schedule: when the k-th
+// frame of that call is about to be written, the withdrawal of the holders starts on another goroutine
+// and the writer waits until the withdrawal has either completed or is blocked on the announcer's lock.
+// Oracle: once the withdrawal of the last holder has returned, no further unsolicited frame is written.
+
+type c13gHolder struct {
+	All bool     `json:"all,omitempty"`
+	Ifs []string `json:"ifs,omitempty"`
+}
+
+type c13gCase struct {
+	Holders  []c13gHolder `json:"holders"`  // services ns/svc0.. announcing 10.0.0.1
+	Spam     int          `json:"spam"`     // whose advertisement the loop replays
+	K        int          `json:"k"`        // the withdrawal starts when the k-th frame is about to be written
+	Withdraw []bool       `json:"withdraw"` // which holders are withdrawn
+}
+
+func genC13G(rt *rapid.T) c13gCase {
+	var c c13gCase
+	n := rapid.IntRange(1, 3).Draw(rt, "nholders")
+	for i := 0; i < n; i++ {
+		h := c13gHolder{All: rapid.IntRange(0, 1).Draw(rt, "all") == 0}
+		if !h.All {
+			for _, f := range c13Ifaces {
+				if rapid.IntRange(0, 3).Draw(rt, "ifsel") != 0 {
+					h.Ifs = append(h.Ifs, f)
+				}
+			}
+		}
+		c.Holders = append(c.Holders, h)
+		c.Withdraw = append(c.Withdraw, rapid.IntRange(0, 3).Draw(rt, "withdraw") != 0)
+	}
+	c.Spam = rapid.IntRange(0, n-1).Draw(rt, "spam")
+	c.K = rapid.IntRange(1, 6).Draw(rt, "k")
+	return c
+}
+
+func runC13G(c c13gCase, tr *vw.Trace) *vw.Violation {
+	w := newC13World()
+	ip := net.ParseIP("10.0.0.1")
+	var advs []IPAdvertisement
+	for i, h := range c.Holders {
+		adv := NewIPAdvertisement(ip, h.All, sets.New(h.Ifs...))
+		advs = append(advs, adv)
+		w.a.SetBalancer(fmt.Sprintf("ns/svc%d", i), adv)
+	}
+	w.a.VerifDrainSpam()
+	all := true
+	for i := range c.Holders {
+		if !c.Withdraw[i] {
+			all = false
+		}
+	}
+	var frames, late, done, started int32
+	finished := make(chan struct{})
+	hook := func() {
+		n := atomic.AddInt32(&frames, 1)
+		if atomic.LoadInt32(&done) == 1 && all {
+			atomic.AddInt32(&late, 1)
+		}
+		if int(n) != c.K || !atomic.CompareAndSwapInt32(&started, 0, 1) {
+			return
+		}
+		go func() {
+			for i := range c.Holders {
+				if c.Withdraw[i] {
+					w.a.DeleteBalancer(fmt.Sprintf("ns/svc%d", i))
+				}
+			}
+			atomic.StoreInt32(&done, 1)
+			close(finished)
+		}()
+		// wait until the withdrawal has completed, or is parked on the announcer's lock (a waiting writer makes TryRLock fail)
+		for i := 0; atomic.LoadInt32(&done) == 0; i++ {
+			if !w.a.TryRLock() {
+				for j := 0; j < 2000 && atomic.LoadInt32(&done) == 0; j++ {
+					runtime.Gosched()
+				}
+				break
+			}
+			w.a.RUnlock()
+			runtime.Gosched()
+		}
+	}
+	for _, pc := range w.conns {
+		pc.onWrite = hook
+	}
+	w.a.gratuitous(advs[c.Spam%len(advs)])
+	if atomic.LoadInt32(&started) == 0 {
+		tr.Class("announcement-shorter-than-k-frames")
+		return nil
+	}
+	<-finished
+	tr.Class("withdrawal-inside-unsolicited-announcement")
+	if all {
+		tr.Class("last-holder-withdrawn")
+		tr.NonTrivial()
+		if l := atomic.LoadInt32(&late); l > 0 {
+			return vw.Violationf("unsolicited-after-withdrawal", "%d unsolicited frame(s) for %s were written after the withdrawal of its last holder had returned (withdrawal started at frame %d of %d)", l, ip, c.K, atomic.LoadInt32(&frames))
+		}
+		before := atomic.LoadInt32(&frames)
+		w.a.gratuitous(advs[c.Spam%len(advs)])
+		if atomic.LoadInt32(&frames) != before {
+			return vw.Violationf("gratuitous-for-withdrawn-address", "the next round of the announcement loop still sends %d frame(s) for %s", atomic.LoadInt32(&frames)-before, ip)
+		}
+	}
+	return nil
+}
+
+func TestVerifC13WithdrawInside(t *testing.T) {
+	vw.Run(t, vw.Options{Property: "C13", Engine: "withdraw-inside-announcement",
+		Rule:        "1..3 services hold one address with generated interface sets; the real gratuitous() replays one of the advertisements and, when its k-th frame (k in 1..6) is about to be written, a chosen subset of the holders is withdrawn on another goroutine while the writer waits for the withdrawal to complete or to park on the announcer's lock; once the withdrawal of the last holder has returned no further frame may be written; non-trivial = all holders withdrawn inside the announcement",
+		Assumptions: []string{"the harness decides where in the frame sequence the withdrawal starts; whether the withdrawal then overtakes the writer is up to the code under test's locking"}},
+		genC13G, runC13G)
 }
 
 var _ = sort.Strings
